@@ -18,6 +18,15 @@
 //! binary built from the repository under test; the simulated run must equal
 //! the binary's run, and the harness's real shell must equal it too.
 //!
+//! Stream 4 (several children alive together): the parent forks two to four
+//! children that wait for commands on pipes; exit / self-kill / sigprocmask /
+//! setpgid(0,0) in a child, kill from the parent, `wait(-1)` / `wait(pid)` (the
+//! traits' wait never blocks) and the parent's SIGCHLD accounting are compared
+//! between the two systems and with the model `Yv.C19.Wait` (`CWait` cases).
+//!
+//! A simulated script run that does not finish (deadlock or step budget) has
+//! status -1; Coq reports it as verdict 23 before anything else is compared.
+//!
 //! Nine classes of inputs on which the simulator is known to deviate (findings
 //! F22-F30 in /verif/known_findings.json) are generated like everything else;
 //! a case that really contains an input of a class carries the class name as a
@@ -170,6 +179,100 @@ enum CStat {
     Signaled(usize),
 }
 
+/// How a child of the wait stream ended.
+#[derive(Clone, Copy, Debug, PartialEq, Eq)]
+enum WStat {
+    Exited(i32),
+    /// index into SIGS (usize::MAX = another signal)
+    Signaled(usize),
+}
+
+/// One call a child of the wait stream performs itself.
+#[derive(Clone, Debug, PartialEq, Eq)]
+enum CCmd {
+    Exit(i32),
+    /// kill(getpid(), sig)
+    SelfKill(usize),
+    /// 0 = block, 1 = unblock, 2 = set
+    Mask(u8, Vec<usize>),
+    /// setpgid(0, 0)
+    Setpgid,
+}
+
+/// Stream 4 (several children alive together): the parent's calls, and the
+/// calls it makes its children perform (each child waits for commands on a pipe).
+#[derive(Clone, Debug, PartialEq, Eq)]
+enum WOp {
+    /// a call of the parent (signals only are generated)
+    Parent(Op),
+    Fork,
+    /// child k (in fork order) performs the call
+    Cmd(usize, CCmd),
+    /// the parent sends the signal to child k
+    Kill(usize, usize),
+    /// waitpid(-1 / pid of child k, WNOHANG)
+    Wait(Option<usize>),
+}
+
+impl CCmd {
+    fn coq(&self) -> String {
+        match self {
+            CCmd::Exit(n) => format!("(CExit {})", coq::n(*n as u64)),
+            CCmd::SelfKill(s) => format!("(CSelfKill {})", coq::n(*s as u64)),
+            CCmd::Mask(h, l) => format!("(CMask {} {})", coq::n(*h as u64), sig_list_coq(l)),
+            CCmd::Setpgid => "CSetpgid".into(),
+        }
+    }
+    fn show(&self) -> String {
+        match self {
+            CCmd::Exit(n) => format!("exit({n})"),
+            CCmd::SelfKill(s) => format!("kill(getpid(),{})", SIGS[*s]),
+            CCmd::Mask(h, l) => format!(
+                "sigmask({},{:?})",
+                ["block", "unblock", "set"][*h as usize],
+                l.iter().map(|s| SIGS[*s]).collect::<Vec<_>>()
+            ),
+            CCmd::Setpgid => "setpgid(0,0)".into(),
+        }
+    }
+}
+
+impl WOp {
+    fn coq(&self) -> String {
+        match self {
+            WOp::Parent(o) => format!("(WParent {})", o.coq()),
+            WOp::Fork => "WFork".into(),
+            WOp::Cmd(k, c) => format!("(WCmd {} {})", coq::nat(*k), c.coq()),
+            WOp::Kill(k, s) => format!("(WKill {} {})", coq::nat(*k), coq::n(*s as u64)),
+            WOp::Wait(None) => "(WWait None)".into(),
+            WOp::Wait(Some(k)) => format!("(WWait (Some {}))", coq::nat(*k)),
+        }
+    }
+    fn show(&self) -> String {
+        match self {
+            WOp::Parent(o) => o.show(),
+            WOp::Fork => "fork".into(),
+            WOp::Cmd(k, c) => format!("child{k}:{}", c.show()),
+            WOp::Kill(k, s) => format!("kill(child{k},{})", SIGS[*s]),
+            WOp::Wait(None) => "wait(-1)".into(),
+            WOp::Wait(Some(k)) => format!("wait(child{k})"),
+        }
+    }
+    fn class(&self) -> &'static str {
+        match self {
+            WOp::Parent(_) => "parent-signal-call",
+            WOp::Fork => "fork",
+            WOp::Cmd(_, CCmd::Exit(_)) => "child-exit",
+            WOp::Cmd(_, CCmd::SelfKill(_)) => "child-self-kill",
+            WOp::Cmd(_, CCmd::Mask(..)) => "child-sigmask",
+            WOp::Cmd(_, CCmd::Setpgid) => "child-setpgid",
+            WOp::Kill(..) => "kill-child",
+            WOp::Wait(None) => "wait-any",
+            WOp::Wait(Some(_)) => "wait-pid",
+        }
+    }
+}
+
 #[derive(Clone, Copy, Debug, PartialEq, Eq)]
 enum Disp {
     Default,
@@ -231,6 +334,10 @@ enum Res {
     /// not executed: the process had been killed
     Skip,
     Child(CStat),
+    /// wait stream: nothing to report yet / ECHILD / child k ended
+    WNone,
+    WNoChild,
+    WGot(usize, WStat),
     Hang,
     Panic,
 }
@@ -509,6 +616,18 @@ impl Res {
             Res::Child(CStat::Signaled(s)) => format!("(RChild (CSignaled {}))", coq::n(*s as u64)),
             Res::Hang => "RHang".into(),
             Res::Panic => "RPanic".into(),
+            // (wait stream only: printed by `wcoq`)
+            Res::WNone | Res::WNoChild | Res::WGot(..) => "RPanic".into(),
+        }
+    }
+    /// as a `wres` of Wait.v
+    fn wcoq(&self) -> String {
+        match self {
+            Res::WNone => "WRNone".into(),
+            Res::WNoChild => "WRNoChild".into(),
+            Res::WGot(k, WStat::Exited(n)) => format!("(WRGot {} (WExited {}))", coq::nat(*k), coq::n(*n as u64)),
+            Res::WGot(k, WStat::Signaled(s)) => format!("(WRGot {} (WSignaled {}))", coq::nat(*k), coq::n(*s as u64)),
+            other => format!("(WR {})", other.coq()),
         }
     }
     fn show(&self) -> String {
@@ -544,6 +663,10 @@ impl Res {
             Res::Child(CStat::Signaled(s)) => format!("child signaled {s}"),
             Res::Hang => "hang".into(),
             Res::Panic => "panic".into(),
+            Res::WNone => "wnone".into(),
+            Res::WNoChild => "wnochild".into(),
+            Res::WGot(k, WStat::Exited(n)) => format!("wgot {k} exited {n}"),
+            Res::WGot(k, WStat::Signaled(x)) => format!("wgot {k} signaled {x}"),
         }
     }
     fn dec(s: &str) -> Res {
@@ -586,6 +709,12 @@ impl Res {
             "skip" => Res::Skip,
             "child" => Res::Child(if a[0] == "exited" { CStat::Exited } else { CStat::Signaled(a[1].parse().unwrap()) }),
             "panic" => Res::Panic,
+            "wnone" => Res::WNone,
+            "wnochild" => Res::WNoChild,
+            "wgot" => Res::WGot(
+                a[0].parse().unwrap(),
+                if a[1] == "exited" { WStat::Exited(a[2].parse().unwrap()) } else { WStat::Signaled(a[2].parse().unwrap()) },
+            ),
             _ => Res::Hang,
         }
     }
@@ -679,6 +808,9 @@ trait SysOps:
     const REAL: bool;
     /// chmod by the harness (the System traits have none); `path` as the system sees it
     fn harness_chmod(&self, path: &str, mode: u32) -> Result<(), Errno>;
+    /// (synchronisation of the wait stream, not a compared call) has the child
+    /// terminated, so that wait() can report it?  The real side blocks until it has.
+    fn harness_halted(&self, pid: yash_env::job::Pid) -> bool;
     /// the numbers of SIGS on this system
     fn sig(i: usize) -> yash_env::signal::Number {
         [Self::SIGUSR1, Self::SIGUSR2, Self::SIGTERM, Self::SIGINT, Self::SIGHUP, Self::SIGTSTP, Self::SIGCHLD][i]
@@ -704,12 +836,25 @@ impl SysOps for VirtualSystem {
         inode.borrow_mut().permissions = Mode::from_bits_retain(mode as _);
         Ok(())
     }
+    fn harness_halted(&self, pid: yash_env::job::Pid) -> bool {
+        !self.state.borrow().processes.get(&pid).is_some_and(|p| p.state().is_alive())
+    }
 }
 impl SysOps for RealSystem {
     const REAL: bool = true;
     fn harness_chmod(&self, path: &str, mode: u32) -> Result<(), Errno> {
         std::fs::set_permissions(path, std::fs::Permissions::from_mode(mode))
             .map_err(|e| Errno(e.raw_os_error().unwrap_or(0)))
+    }
+    fn harness_halted(&self, pid: yash_env::job::Pid) -> bool {
+        // waitid(WNOWAIT) returns when the child can be waited for and leaves it so
+        loop {
+            let mut info: libc::siginfo_t = unsafe { std::mem::zeroed() };
+            let r = unsafe { libc::waitid(libc::P_PID, pid.0 as libc::id_t, &mut info, libc::WEXITED | libc::WNOWAIT) };
+            if r == 0 || std::io::Error::last_os_error().raw_os_error() != Some(libc::EINTR) {
+                return true;
+            }
+        }
     }
 }
 
@@ -1101,6 +1246,15 @@ fn run_ops<'a, S: SysOps, K: Sink>(
     })
 }
 
+/// Wait stream: one result per operation, in order; what is missing is `Hang`.
+fn align_wait(n: usize, raw: &[Res]) -> Vec<Res> {
+    let mut out: Vec<Res> = raw.iter().take(n).cloned().collect();
+    while out.len() < n {
+        out.push(Res::Hang);
+    }
+    out
+}
+
 /// One result per operation: the raw stream has no results for the operations
 /// a killed child did not execute; they get `Skip`, and the `Child` report of
 /// the parent goes to the matching `Exit`.
@@ -1142,6 +1296,223 @@ fn align(ops: &[Op], raw: &[Res]) -> Vec<Res> {
         }
     }
     out
+}
+
+// ---------------------------------------------------------------------------
+// stream 4: several children alive together (one driver for both systems)
+// ---------------------------------------------------------------------------
+
+/// Waits (without reaping) until child `pid` has terminated.
+async fn await_halt<S: SysOps>(sys: &S, pid: yash_env::job::Pid) {
+    let mut spins = 0u32;
+    while !sys.harness_halted(pid) {
+        spins += 1;
+        if spins > 2000 {
+            std::future::pending::<()>().await;
+        }
+        YieldNow(false).await;
+    }
+}
+
+/// The body of a child of the wait stream: it performs the command whose index
+/// arrives on its command pipe and acknowledges it on its other pipe (a child
+/// that dies in a command never acknowledges: the parent sees end-of-file).
+async fn wait_child_body<S: SysOps>(csys: S, wops: Vec<WOp>, cr: Fd, aw: Fd, close: Vec<Fd>) {
+    use yash_env::job::Pid;
+    for fd in close {
+        let _ = csys.close(fd);
+    }
+    loop {
+        let mut b = [0u8; 1];
+        let n = loop {
+            match csys.read(cr, &mut b).await {
+                Err(Errno::EINTR) => continue,
+                x => break x,
+            }
+        };
+        // A simulated process that was killed while it was blocked in this read is not
+        // resumed by a real kernel; the bare VirtualSystem (without the shell's
+        // `Concurrent::run_virtual`, which checks this) would run its task on.
+        if !S::REAL && csys.harness_halted(csys.getpid()) {
+            std::future::pending::<()>().await;
+        }
+        if n != Ok(1) {
+            csys.exit(ExitStatus(98)).await;
+        }
+        // (255 = are you alive?)
+        if let Some(WOp::Cmd(_, cmd)) = wops.get(b[0] as usize) {
+            match cmd {
+                CCmd::Exit(n) => {
+                    csys.exit(ExitStatus(*n)).await;
+                }
+                CCmd::SelfKill(s) => {
+                    let _ = csys.kill(csys.getpid(), Some(S::sig(*s))).await;
+                }
+                CCmd::Mask(how, sigs) => {
+                    use yash_env::system::{SigmaskOp, Sigset};
+                    let mut set = <S as yash_env::system::Sigmask>::Sigset::default();
+                    for s in sigs {
+                        let _ = set.insert(S::sig(*s));
+                    }
+                    let op = [SigmaskOp::Add, SigmaskOp::Remove, SigmaskOp::Set][*how as usize];
+                    let _ = csys.sigmask(Some((op, &set)), None).await;
+                }
+                CCmd::Setpgid => {
+                    let _ = csys.setpgid(Pid(0), Pid(0));
+                }
+            }
+        }
+        loop {
+            match csys.write(aw, &[1]).await {
+                Err(Errno::EINTR) => continue,
+                _ => break,
+            }
+        }
+    }
+}
+
+/// Sends one command byte to a child and waits for its effect: `Unit` = the
+/// child acknowledged, `Skip` = the child died (and can now be waited for).
+async fn wait_send<S: SysOps>(sys: &S, pid: yash_env::job::Pid, cmd_w: Fd, ack_r: Fd, byte: u8) -> Res {
+    loop {
+        match sys.write(cmd_w, &[byte]).await {
+            Ok(1) => break,
+            Err(Errno::EINTR) => continue,
+            Err(Errno::EPIPE) => {
+                await_halt(sys, pid).await;
+                return Res::Skip;
+            }
+            Ok(_) => return Res::Err("EOTHER"),
+            Err(x) => return e(x),
+        }
+    }
+    let mut b = [0u8; 1];
+    loop {
+        match sys.read(ack_r, &mut b).await {
+            Ok(1) => return Res::Unit,
+            Ok(_) => {
+                await_halt(sys, pid).await;
+                return Res::Skip;
+            }
+            Err(Errno::EINTR) => continue,
+            Err(x) => return e(x),
+        }
+    }
+}
+
+fn run_wait_ops<'a, S: SysOps, K: Sink>(
+    sys: &'a S,
+    wops: &'a [WOp],
+    root: &'a str,
+    sink: &'a K,
+) -> Pin<Box<dyn Future<Output = ()> + 'a>> {
+    Box::pin(async move {
+        use yash_env::job::{Pid, ProcessResult, ProcessState};
+        use yash_env::system::Disposition;
+        struct Ch {
+            pid: Pid,
+            cmd_w: Fd,
+            ack_r: Fd,
+        }
+        // a write to the pipe of a dead child must fail with EPIPE, not kill the parent
+        let _ = sys.sigaction(S::SIGPIPE, Disposition::Ignore);
+        let mut chs: Vec<Ch> = vec![];
+        for (i, op) in wops.iter().enumerate() {
+            match op {
+                WOp::Parent(o) => sink.emit(exec_op(sys, o, root, 0).await),
+                WOp::Fork => {
+                    let pipes = sys.pipe().and_then(|c| sys.pipe().map(|a| (c, a)));
+                    let ((cr, cw), (ar, aw)) = match pipes {
+                        Ok(p) => p,
+                        Err(x) => {
+                            sink.emit(e(x));
+                            continue;
+                        }
+                    };
+                    let mut close: Vec<Fd> = chs.iter().flat_map(|c| [c.cmd_w, c.ack_r]).collect();
+                    close.push(cw);
+                    close.push(ar);
+                    let ops2 = wops.to_vec();
+                    let (r, _) = sys.run_in_child_process((), async move |csys: S, _| {
+                        wait_child_body(csys, ops2, cr, aw, close).await;
+                    });
+                    let _ = sys.close(cr);
+                    let _ = sys.close(aw);
+                    match r {
+                        Ok(pid) => {
+                            chs.push(Ch { pid, cmd_w: cw, ack_r: ar });
+                            sink.emit(Res::Unit);
+                        }
+                        Err(x) => sink.emit(e(x)),
+                    }
+                }
+                WOp::Cmd(k, _) => match chs.get(*k) {
+                    Some(c) => sink.emit(wait_send(sys, c.pid, c.cmd_w, c.ack_r, i as u8).await),
+                    None => sink.emit(Res::Hang),
+                },
+                WOp::Kill(k, s) => match chs.get(*k) {
+                    Some(c) => {
+                        let _ = sys.kill(c.pid, Some(S::sig(*s))).await;
+                        sink.emit(wait_send(sys, c.pid, c.cmd_w, c.ack_r, 255).await);
+                    }
+                    None => sink.emit(Res::Hang),
+                },
+                WOp::Wait(t) => {
+                    let target = match t {
+                        None => Some(Pid(-1)),
+                        Some(k) => chs.get(*k).map(|c| c.pid),
+                    };
+                    let Some(target) = target else {
+                        sink.emit(Res::Hang);
+                        continue;
+                    };
+                    let r = match sys.wait(target) {
+                        Ok(None) => Res::WNone,
+                        Ok(Some((pid, st))) => {
+                            let k = chs.iter().position(|c| c.pid == pid);
+                            match (k, st) {
+                                (Some(k), ProcessState::Halted(ProcessResult::Exited(x))) => Res::WGot(k, WStat::Exited(x.0)),
+                                (Some(k), ProcessState::Halted(ProcessResult::Signaled { signal, .. })) => {
+                                    let idx = (0..SIGS.len()).find(|j| S::sig(*j) == signal).unwrap_or(usize::MAX);
+                                    Res::WGot(k, WStat::Signaled(idx))
+                                }
+                                _ => Res::Err("EOTHER"),
+                            }
+                        }
+                        Err(Errno::ECHILD) => Res::WNoChild,
+                        Err(x) => e(x),
+                    };
+                    sink.emit(r);
+                }
+            }
+        }
+        // leave no process behind: the next sequence of this worker must not see them
+        for c in &chs {
+            let _ = sys.kill(c.pid, Some(S::SIGKILL)).await;
+        }
+        let mut spins = 0u32;
+        loop {
+            match sys.wait(Pid(-1)) {
+                Ok(Some(_)) => {}
+                Ok(None) => {
+                    if S::REAL {
+                        std::thread::sleep(Duration::from_micros(100));
+                    } else {
+                        spins += 1;
+                        if spins > 2000 {
+                            break;
+                        }
+                        YieldNow(false).await;
+                    }
+                }
+                Err(_) => break,
+            }
+        }
+        for c in &chs {
+            let _ = sys.close(c.cmd_w);
+            let _ = sys.close(c.ack_r);
+        }
+    })
 }
 
 // ---------------------------------------------------------------------------
@@ -1366,6 +1737,11 @@ fn populate_real_plain(root: &str, tree: &InitTree) {
 /// Runs a sequence on a fresh `VirtualSystem`.  `root` is the absolute path of
 /// the (simulated) working directory — the same string as on the real side.
 fn run_sys_virtual(case: &SysCase, root: &str) -> SysObs {
+    run_sys_virtual_w(case, None, root)
+}
+
+/// `wops` = Some: a sequence of the wait stream (the case is an empty one).
+fn run_sys_virtual_w(case: &SysCase, wops: Option<&[WOp]>, root: &str) -> SysObs {
     let system = VirtualSystem::new();
     let state = Rc::clone(&system.state);
     let sink = MemSink::default();
@@ -1389,10 +1765,14 @@ fn run_sys_virtual(case: &SysCase, root: &str) -> SysObs {
             {
                 let done = Rc::clone(&done);
                 let ops = case.ops.clone();
+                let wops: Option<Vec<WOp>> = wops.map(|w| w.to_vec());
                 let root = root.to_string();
                 let sys = system.clone();
                 let task = async move {
-                    run_ops(&sys, &ops, &root, &sink, 0).await;
+                    match &wops {
+                        Some(w) => run_wait_ops(&sys, w, &root, &sink).await,
+                        None => run_ops(&sys, &ops, &root, &sink, 0).await,
+                    }
                     done.set(true);
                 };
                 // SAFETY: single-threaded, as in yash_env::test_helper::in_virtual_system
@@ -1414,7 +1794,10 @@ fn run_sys_virtual(case: &SysCase, root: &str) -> SysObs {
         raw.push(Res::Panic);
     }
     // (a call that never returned: the rest of the sequence gets `Hang`)
-    let res = align(&case.ops, &raw);
+    let res = match wops {
+        Some(w) => align_wait(w.len(), &raw),
+        None => align(&case.ops, &raw),
+    };
     let snap = std::panic::catch_unwind(std::panic::AssertUnwindSafe(|| {
         let read = |p: &str| -> Vec<u8> {
             match state.borrow().file_system.get(p) {
@@ -1434,7 +1817,7 @@ fn run_sys_virtual(case: &SysCase, root: &str) -> SysObs {
 
 /// Runs a sequence on the real system; called in the worker process only.
 /// Results go to the pipe at `SINK_FD`.
-fn run_sys_real(case: &SysCase, dir: &str) {
+fn run_sys_real(case: &SysCase, wops: Option<&[WOp]>, dir: &str) {
     let sys = unsafe { RealSystem::new() };
     let root = format!("{dir}/root");
     let stdd = format!("{dir}/std");
@@ -1469,7 +1852,10 @@ fn run_sys_real(case: &SysCase, dir: &str) {
     sys.chdir(&cstr(&root)).unwrap();
     sys.umask(Mode::from_bits_retain(case.umask as _));
     let sink = FdSink;
-    let fut = run_ops(&sys, &case.ops, &root, &sink, 0);
+    let fut = match wops {
+        Some(w) => run_wait_ops(&sys, w, &root, &sink),
+        None => run_ops(&sys, &case.ops, &root, &sink, 0),
+    };
     if now(fut).is_none() {
         sink_line("R hang");
     }
@@ -2683,10 +3069,277 @@ fn gen_perm_case(seed: u64, k: usize) -> SysCase {
     SysCase { tree, umask: 0, ops, tags }
 }
 
+/// SIGCHLD accounting sub-stream: who is told when a child ends.  The parent P of
+/// the dying child catches SIGCHLD (sometimes blocks it) and collects the caught
+/// signals before and after; P is the first process (a group leader), a nested
+/// child that is a non-leader member of the first process's group, or a nested
+/// child that leads a group of its own; the child C stays in P's group or moves
+/// to a group of its own (before or after the signal is pending); C ends by
+/// exit, by a fatal signal it sends itself (to itself / its group), or inside
+/// its own sigprocmask call that unblocks a pending signal (the mask inherited
+/// from P, like a shell's trap, or set by C).  The kernel model covers all of it.
+fn gen_chld_case(seed: u64, idx: usize) -> SysCase {
+    let mut r = Rng::new(seed ^ 0xC41D).fork(idx as u64);
+    let tree = default_tree(&mut r);
+    let mut ops = vec![];
+    let nested = r.below(3); // 0: P is the first process; 1: P non-leader child; 2: P child leading a group
+    let sig = r.below(5);
+    let chld_blocked_in_p = r.chance(1, 5);
+    ops.push(Op::Sigaction(CHLD, Disp::Catch));
+    if nested > 0 {
+        if r.chance(1, 2) {
+            // the first process does not catch SIGCHLD itself
+            ops.pop();
+        }
+        ops.push(Op::Fork);
+        if nested == 2 {
+            ops.push(Op::Setpgid0);
+        }
+        ops.push(Op::Sigaction(CHLD, Disp::Catch));
+        ops.push(Op::Caught);
+    }
+    // how C will end
+    let how = r.below(5);
+    if how == 3 {
+        // like a shell with a trap: caught and blocked in P, inherited by C
+        ops.push(Op::Sigaction(sig, Disp::Catch));
+        ops.push(Op::Sigmask(0, vec![sig]));
+    }
+    if chld_blocked_in_p {
+        ops.push(Op::Sigmask(0, vec![CHLD]));
+    }
+    ops.push(Op::Caught);
+    ops.push(Op::Fork);
+    let own_early = r.chance(1, 3);
+    if own_early {
+        ops.push(Op::Setpgid0);
+    }
+    let own_late = !own_early && r.chance(1, 2);
+    match how {
+        0 => {
+            // plain exit
+            if own_late {
+                ops.push(Op::Setpgid0);
+            }
+            ops.push(Op::Getcwd);
+        }
+        1 => {
+            // a fatal signal for itself
+            if own_late {
+                ops.push(Op::Setpgid0);
+            }
+            ops.push(Op::Sigaction(sig, Disp::Default));
+            ops.push(Op::Kill(Target::Own, sig));
+            ops.push(Op::Getcwd);
+        }
+        2 | 4 => {
+            // death at unblock time, the mask set by C itself
+            ops.push(Op::Sigmask(0, vec![sig]));
+            ops.push(Op::Sigaction(sig, Disp::Default));
+            ops.push(Op::Kill(Target::Own, sig));
+            if own_late {
+                ops.push(Op::Setpgid0);
+            }
+            ops.push(if how == 2 { Op::Sigmask(1, vec![sig]) } else { Op::Sigmask(2, vec![]) });
+            ops.push(Op::Getcwd);
+        }
+        _ => {
+            // death at unblock time, the mask inherited from P
+            ops.push(Op::Kill(Target::Own, sig));
+            if own_late {
+                ops.push(Op::Setpgid0);
+            }
+            ops.push(Op::Sigaction(sig, Disp::Default));
+            ops.push(Op::Sigmask(1, vec![sig]));
+            ops.push(Op::Getcwd);
+        }
+    }
+    ops.push(Op::Exit);
+    // P: has it been told?
+    ops.push(Op::Caught);
+    if chld_blocked_in_p {
+        ops.push(Op::Sigmask(1, vec![CHLD]));
+        ops.push(Op::Caught);
+    }
+    if nested > 0 {
+        ops.push(Op::Exit);
+        // the first process: told about its own child only
+        ops.push(Op::Caught);
+    }
+    ops.push(Op::Caught);
+    SysCase { tree, umask: 0o022, ops, tags: vec![] }
+}
+
+// ---------------------------------------------------------------------------
+// generator of the wait stream (several children alive together)
+// ---------------------------------------------------------------------------
+
+fn corpus_wait() -> Vec<Vec<WOp>> {
+    use WOp::*;
+    let p = |o: Op| Parent(o);
+    vec![
+        // two children alive together; the younger one, in a group of its own, dies inside
+        // its sigprocmask call (mask inherited from the parent), the older one exits later
+        vec![
+            p(Op::Sigaction(CHLD, Disp::Catch)), p(Op::Sigmask(0, vec![2])), Fork, Fork,
+            Wait(None), Cmd(1, CCmd::Setpgid), Kill(1, 2), p(Op::Caught), Wait(Some(1)),
+            Cmd(1, CCmd::Mask(1, vec![2])), p(Op::Caught), Wait(Some(0)), Wait(None), Wait(None),
+            Cmd(0, CCmd::Exit(7)), p(Op::Caught), Wait(Some(1)), Wait(Some(0)), Wait(None),
+        ],
+        // the younger child ends first; wait(-1) must report it although the older one is alive
+        vec![Fork, Fork, Cmd(1, CCmd::Exit(3)), Wait(None), Wait(None), Cmd(0, CCmd::Exit(4)), Wait(None), Wait(None)],
+        // both are zombies: the pid-specific wait picks the named one, wait(-1) the other
+        vec![Fork, Fork, Cmd(0, CCmd::Exit(1)), Cmd(1, CCmd::SelfKill(3)), Wait(Some(1)), Wait(Some(1)), Wait(None), Wait(None), Wait(Some(0))],
+        // no children at all
+        vec![Wait(None), p(Op::Caught)],
+        // SIGCHLD blocked in the parent while two children die: one pending instance
+        vec![
+            p(Op::Sigaction(CHLD, Disp::Catch)), p(Op::Sigmask(0, vec![CHLD])), Fork, Fork, Fork,
+            Kill(2, 0), Cmd(0, CCmd::Exit(0)), p(Op::Caught), p(Op::Sigmask(1, vec![CHLD])), p(Op::Caught),
+            Wait(None), Wait(None), Wait(None), Cmd(1, CCmd::Mask(0, vec![1])), Kill(1, 1), Cmd(1, CCmd::Mask(2, vec![])),
+            p(Op::Caught), Wait(None), Wait(None),
+        ],
+    ]
+}
+
+fn gen_wait_case(seed: u64, k: usize, thorough: bool) -> Vec<WOp> {
+    let c = corpus_wait();
+    if k < c.len() {
+        return c[k].clone();
+    }
+    #[derive(Clone, Default)]
+    struct Ch {
+        running: bool,
+        mask: BTreeSet<usize>,
+        pend: BTreeSet<usize>,
+    }
+    let mut r = Rng::new(seed ^ 0x3A17).fork(k as u64);
+    let mut ops = vec![];
+    let mut pmask: BTreeSet<usize> = BTreeSet::new();
+    let mut chs: Vec<Ch> = vec![];
+    if r.chance(2, 3) {
+        ops.push(WOp::Parent(Op::Sigaction(CHLD, Disp::Catch)));
+    }
+    if r.chance(1, 2) {
+        // the children inherit a blocked fatal signal (like the children of a shell with a trap)
+        let sig = r.below(5);
+        pmask.insert(sig);
+        ops.push(WOp::Parent(Op::Sigmask(0, vec![sig])));
+    }
+    let want = 2 + r.below(if thorough { 3 } else { 2 });
+    let mut budget = if thorough { 10 + r.below(26) } else { 8 + r.below(16) };
+    while budget > 0 {
+        budget -= 1;
+        let running: Vec<usize> = (0..chs.len()).filter(|i| chs[*i].running).collect();
+        let w = r.below(20);
+        if chs.len() < want && (w < 6 || chs.len() < 2) {
+            chs.push(Ch { running: true, mask: pmask.iter().copied().filter(|s| *s < 5).collect(), pend: BTreeSet::new() });
+            ops.push(WOp::Fork);
+            continue;
+        }
+        match w {
+            0..=5 if !running.is_empty() => {
+                // a call of a child
+                let i = running[r.below(running.len())];
+                let mut sig = r.below(5);
+                let mut what = r.below(8);
+                if let Some(p) = chs[i].pend.iter().next().copied() {
+                    // a pending signal: mostly go on to the death inside sigprocmask
+                    // (sometimes from a process group of its own)
+                    if r.chance(2, 3) {
+                        sig = p;
+                        what = if r.chance(1, 3) { 7 } else { 4 };
+                    }
+                } else if let Some(m) = chs[i].mask.iter().next().copied() {
+                    if r.chance(1, 2) {
+                        sig = m;
+                        what = 2;
+                    }
+                }
+                match what {
+                    0 | 1 => {
+                        chs[i].running = false;
+                        ops.push(WOp::Cmd(i, CCmd::Exit(*r.pick(&[0, 1, 7, 42, 255]))));
+                    }
+                    2 => {
+                        if chs[i].mask.contains(&sig) {
+                            chs[i].pend.insert(sig);
+                        } else {
+                            chs[i].running = false;
+                        }
+                        ops.push(WOp::Cmd(i, CCmd::SelfKill(sig)));
+                    }
+                    3 => {
+                        chs[i].mask.insert(sig);
+                        ops.push(WOp::Cmd(i, CCmd::Mask(0, vec![sig])));
+                    }
+                    4 | 5 => {
+                        // unblock / set: at most one pending signal may become deliverable
+                        let (how, sigs, new): (u8, Vec<usize>, BTreeSet<usize>) = if what == 4 || r.chance(1, 2) {
+                            let mut n = chs[i].mask.clone();
+                            n.remove(&sig);
+                            (1, vec![sig], n)
+                        } else {
+                            let keep: Vec<usize> = chs[i].mask.iter().copied().filter(|_| r.chance(1, 2)).collect();
+                            (2, keep.clone(), keep.into_iter().collect())
+                        };
+                        let deliverable: Vec<usize> = chs[i].pend.iter().copied().filter(|s| !new.contains(s)).collect();
+                        if deliverable.len() > 1 {
+                            continue;
+                        }
+                        chs[i].mask = new;
+                        if !deliverable.is_empty() {
+                            chs[i].running = false;
+                        }
+                        ops.push(WOp::Cmd(i, CCmd::Mask(how, sigs)));
+                    }
+                    _ => ops.push(WOp::Cmd(i, CCmd::Setpgid)),
+                }
+            }
+            6..=8 if !running.is_empty() => {
+                // the parent sends a signal to a child
+                let i = running[r.below(running.len())];
+                let mut sig = r.below(5);
+                if let Some(m) = chs[i].mask.iter().next().copied() {
+                    // mostly a signal the child blocks: it stays pending
+                    if r.chance(2, 3) {
+                        sig = m;
+                    }
+                }
+                if chs[i].mask.contains(&sig) {
+                    chs[i].pend.insert(sig);
+                } else {
+                    chs[i].running = false;
+                }
+                ops.push(WOp::Kill(i, sig));
+            }
+            9..=12 => ops.push(WOp::Wait(None)),
+            13..=15 if !chs.is_empty() => ops.push(WOp::Wait(Some(r.below(chs.len())))),
+            16 | 17 => ops.push(WOp::Parent(Op::Caught)),
+            18 => {
+                let how = r.below(2) as u8;
+                ops.push(WOp::Parent(Op::Sigmask(how, vec![CHLD])));
+            }
+            _ => {}
+        }
+    }
+    // collect everything that can be collected, and the SIGCHLD state
+    ops.push(WOp::Parent(Op::Sigmask(1, vec![CHLD])));
+    ops.push(WOp::Parent(Op::Caught));
+    for _ in 0..=chs.len() {
+        ops.push(WOp::Wait(None));
+    }
+    ops
+}
+
 fn gen_sys_case(seed: u64, idx: usize, thorough: bool) -> SysCase {
     // every sixth case is an EMFILE sweep
     if idx % 6 == 5 {
         return gen_sweep_case(seed, idx);
+    }
+    // ... and every sixth a SIGCHLD accounting case
+    if idx % 6 == 2 {
+        return gen_chld_case(seed, idx);
     }
     let x = excl_for(seed, idx, 0x5E1);
     let mut r = Rng::new(seed ^ 0xC19).fork(idx as u64);
@@ -3130,8 +3783,16 @@ impl SGen<'_> {
 
     fn stmt(&mut self) -> String {
         loop {
-            let k = self.r.below(68);
+            let k = self.r.below(72);
             let (kind, s): (&'static str, String) = match k {
+                68..=71 => {
+                    // a background child that dies the moment it unblocks a pending signal
+                    // (blocked because the parent traps it), the parent then waits for it
+                    if !self.cwd.is_empty() {
+                        continue;
+                    }
+                    ("unblock-death", unblock_death_stmt(self.r))
+                }
                 0 => ("redir-out", format!("echo {} > {}", self.word(), self.newfile())),
                 1 => ("redir-out", format!("echo {} > {}; echo {} >> {}", self.word(), "n1", self.word(), "n1")),
                 2 => ("redir-append", format!("echo {} >> {}", self.word(), self.file())),
@@ -3415,6 +4076,38 @@ impl SGen<'_> {
     }
 }
 
+/// The parent traps a signal (so it is blocked in a freshly forked child until
+/// the child has reset its traps and its mask), starts a background child that
+/// would block on a FIFO, sends the signal at once and waits: the child dies
+/// inside its own sigprocmask call (or, if it was faster, by the default action
+/// while reading: the script shows the same either way) and its PARENT must be
+/// woken up.  Variants: job control (the child in a process group of its own),
+/// the waiting parent is the shell itself (a group leader), a subshell, a
+/// subshell of a subshell or a member of a pipeline (not group leaders), the
+/// signal sent once or twice, one or two traps, three ways of waiting.  On the
+/// simulator a lost SIGCHLD is a deadlock: the run does not finish.
+fn unblock_death_stmt(r: &mut Rng) -> String {
+    // (not INT / QUIT: a background child of a shell without job control ignores them)
+    let sig = *r.pick(&["TERM", "HUP", "ALRM", "TERM"]);
+    let jobctl = r.chance(1, 3);
+    let wait = *r.pick(&["wait $!; echo $?", "wait; echo $?", "wait $!; echo $?; wait $!; echo $?"]);
+    let kills = if r.chance(1, 3) { format!("kill -s {sig} $!; kill -s {sig} $!") } else { format!("kill -s {sig} $!") };
+    let traps = if r.chance(1, 3) { format!("trap 'echo T' {sig}; trap 'echo U' USR1") } else { format!("trap 'echo T' {sig}") };
+    let body = *r.pick(&["read y <&3; echo no", "read y <&3", "read y <&3; exit 5"]);
+    let core = format!("{traps}; exec 3<>fifo; {{ {body}; }} & {kills}; {wait}; exec 3>&-");
+    // (job control only in the shell itself: what `set -m` does in a subshell without a
+    // terminal is not what this check is about)
+    if jobctl {
+        return format!("set -m; {core}; set +m");
+    }
+    match r.below(5) {
+        0 => format!("({core}); echo $?"),
+        1 => format!("(({core}); echo in=$?); echo $?"),
+        2 => format!("{{ {core}; }} | cat"),
+        _ => core,
+    }
+}
+
 fn gen_script_case(seed: u64, idx: usize, thorough: bool) -> ScriptCase {
     let mut r = Rng::new(seed ^ 0x5C21).fork(idx as u64);
     let n = if thorough { 2 + r.below(8) } else { 2 + r.below(5) };
@@ -3667,6 +4360,15 @@ fn corpus_scripts() -> Vec<ScriptCase> {
         mk("echo a > n1; echo b >> n1; cat < n1; exec 3< n1; read x <&3; echo $x; exec 3<&-; cat <&3; echo $?"),
         mk("trap 'echo T' USR1; kill -s USR1 $$; echo after; trap 'echo bye' EXIT; (exit 9); echo $?"),
         mk("v=$(cat < big); echo ${#v}; cat < big | cat | { read l; echo $l; cat > /dev/null; }; echo $?"),
+        // death inside the child's own unblock call: the parent traps TERM (blocked in the fresh
+        // child); a lost SIGCHLD leaves the simulated parent in wait for ever (verdict 23)
+        mk("trap 'echo T' TERM; exec 3<>fifo; { read y <&3; } & kill -s TERM $!; wait $!; echo $?; exec 3>&-"),
+        // ... the waiting parent is a subshell: not a process group leader
+        mk("(trap 'echo T' TERM; exec 3<>fifo; { read y <&3; echo no; } & kill -s TERM $!; wait $!; echo $?); echo $?"),
+        // ... a member of a pipeline, the signal sent twice, wait without operands
+        mk("{ trap 'echo H' HUP; exec 3<>fifo; { read y <&3; } & kill -s HUP $!; kill -s HUP $!; wait; echo $?; } | cat"),
+        // ... a subshell of a subshell
+        mk("((trap 'echo A' ALRM; exec 3<>fifo; { read y <&3; exit 5; } & kill -s ALRM $!; wait $!; echo $?); echo in=$?); echo $?"),
     ]
 }
 
@@ -4015,7 +4717,22 @@ fn perm_base(thorough: bool) -> usize {
     corpus_sys().len() + n_sys_gen(thorough)
 }
 
+/// The wait stream (several children alive together) comes after the
+/// permission sub-stream in the index space of the real-side workers.
+fn n_wait(thorough: bool) -> usize {
+    corpus_wait().len() + if thorough { 3000 } else { 150 }
+}
+fn wait_base(thorough: bool) -> usize {
+    perm_base(thorough) + n_sys_perm(thorough)
+}
+fn empty_sys_case() -> SysCase {
+    SysCase { tree: vec![], umask: 0o022, ops: vec![], tags: vec![] }
+}
+
 fn sys_case(seed: u64, idx: usize, thorough: bool) -> SysCase {
+    if idx >= wait_base(thorough) {
+        return empty_sys_case();
+    }
     let c = corpus_sys();
     if idx >= perm_base(thorough) {
         return gen_perm_case(seed, idx - perm_base(thorough));
@@ -4081,13 +4798,18 @@ fn real_sys_worker(a: &[String]) -> ! {
     for idx in from..to {
         let case = sys_case(seed, idx, thorough);
         sink_line(&format!("C {idx}"));
-        run_sys_real(&case, &format!("{run}/c{idx}"));
+        if idx >= wait_base(thorough) {
+            let wops = gen_wait_case(seed, idx - wait_base(thorough), thorough);
+            run_sys_real(&case, Some(&wops), &format!("{run}/c{idx}"));
+        } else {
+            run_sys_real(&case, None, &format!("{run}/c{idx}"));
+        }
     }
     sink_line("E");
     std::process::exit(0);
 }
 
-fn parse_worker_output(text: &str, ops_of: &dyn Fn(usize) -> Vec<Op>) -> BTreeMap<usize, SysObs> {
+fn parse_worker_output(text: &str, align_of: &dyn Fn(usize, &[Res]) -> Vec<Res>) -> BTreeMap<usize, SysObs> {
     let mut out: BTreeMap<usize, SysObs> = BTreeMap::new();
     let mut cur: Option<usize> = None;
     for line in text.lines() {
@@ -4118,7 +4840,7 @@ fn parse_worker_output(text: &str, ops_of: &dyn Fn(usize) -> Vec<Op>) -> BTreeMa
         }
     }
     for (idx, o) in out.iter_mut() {
-        o.res = align(&ops_of(*idx), &o.res);
+        o.res = align_of(*idx, &o.res);
     }
     out
 }
@@ -4130,8 +4852,10 @@ fn real_sys_all(args: &Args, n: usize, run: &str) -> BTreeMap<usize, SysObs> {
     let chunk = 25;
     // the permission sub-stream has workers of its own (they drop their privileges)
     let pb = perm_base(args.thorough()).min(n);
+    let wb = wait_base(args.thorough()).min(n);
     let mut chunks: Vec<(usize, usize)> = (0..pb).step_by(chunk).map(|a| (a, (a + chunk).min(pb))).collect();
-    chunks.extend((pb..n).step_by(chunk).map(|a| (a, (a + chunk).min(n))));
+    chunks.extend((pb..wb).step_by(chunk).map(|a| (a, (a + chunk).min(wb))));
+    chunks.extend((wb..n).step_by(chunk).map(|a| (a, (a + chunk).min(n))));
     let par = std::thread::available_parallelism().map(|x| x.get()).unwrap_or(4).min(16);
     let next = std::sync::Arc::new(std::sync::Mutex::new(0usize));
     let results = std::sync::Arc::new(std::sync::Mutex::new(String::new()));
@@ -4164,7 +4888,7 @@ fn real_sys_all(args: &Args, n: usize, run: &str) -> BTreeMap<usize, SysObs> {
                     .arg(b.to_string())
                     .arg(&run)
                     .env_clear();
-                if a >= pb {
+                if a >= pb && a < wb {
                     cmd.arg("unpriv");
                 }
                 // the worker regenerates the sequences: same generator configuration
@@ -4212,7 +4936,13 @@ fn real_sys_all(args: &Args, n: usize, run: &str) -> BTreeMap<usize, SysObs> {
     let text = results.lock().unwrap().clone();
     let thorough = args.thorough();
     let seed = args.seed;
-    parse_worker_output(&text, &|idx| sys_case(seed, idx, thorough).ops)
+    parse_worker_output(&text, &|idx, raw| {
+        if idx >= wait_base(thorough) {
+            align_wait(gen_wait_case(seed, idx - wait_base(thorough), thorough).len(), raw)
+        } else {
+            align(&sys_case(seed, idx, thorough).ops, raw)
+        }
+    })
 }
 
 /// Real-side observations of all scripts (a pool of threads, each running one
@@ -4302,6 +5032,39 @@ fn emit_sys(w: &mut CasesWriter, case: &SysCase, v: &SysObs, r: &SysObs) {
     w.push(&term, &json, &tags, key);
 }
 
+fn emit_wait(w: &mut CasesWriter, wops: &[WOp], v: &[Res], r: &[Res]) {
+    let ops: Vec<String> = wops.iter().map(|o| o.coq()).collect();
+    let vs: Vec<String> = v.iter().map(|x| x.wcoq()).collect();
+    let rs: Vec<String> = r.iter().map(|x| x.wcoq()).collect();
+    let l = |v: &[String], ty: &str| if v.is_empty() { format!("(@nil {ty})") } else { coq::list(v) };
+    let term = format!("(CWait {} {} {})", l(&ops, "wop"), l(&vs, "wres"), l(&rs, "wres"));
+    let mut steps = vec![];
+    for (i, op) in wops.iter().enumerate() {
+        let a = v.get(i).map(|x| x.show()).unwrap_or_default();
+        let b = r.get(i).map(|x| x.show()).unwrap_or_default();
+        if a == b {
+            steps.push(format!("{} -> {}", op.show(), a));
+        } else {
+            steps.push(format!("{} -> VIRTUAL {} / REAL {}", op.show(), a, b));
+        }
+        w.count(&format!("wait-op:{}", op.class()));
+    }
+    let json = format!(
+        "{{\"stream\":\"wait\",\"steps\":[{}]}}",
+        steps.iter().map(|s| json_str(s)).collect::<Vec<_>>().join(",")
+    );
+    let forks = wops.iter().filter(|o| **o == WOp::Fork).count();
+    w.count(&format!("wait-children:{forks}"));
+    let got = v.iter().filter(|x| matches!(x, Res::WGot(..))).count();
+    let died_in_mask = wops.iter().zip(v.iter()).filter(|(o, x)| matches!(o, WOp::Cmd(_, CCmd::Mask(..))) && **x == Res::Skip).count();
+    if died_in_mask > 0 {
+        w.count("wait:death-inside-sigmask");
+    }
+    // non-trivial: two children were reported by wait
+    let key = if got >= 2 { Some(wops.iter().map(|o| o.show()).collect::<Vec<_>>().join(";")) } else { None };
+    w.push(&term, &json, &[], key);
+}
+
 /// The real side must not depend on how the check was started: a signal that
 /// is ignored on entry (`nohup`: SIGHUP; a background job of a non-interactive
 /// shell: SIGINT, SIGQUIT) cannot be trapped by a POSIX shell, and an inherited
@@ -4373,7 +5136,8 @@ fn main() {
 
     // ---- stream 1 ----
     let n_sys = perm_base(args.thorough()) + n_sys_perm(args.thorough());
-    let real = real_sys_all(&args, n_sys, &run);
+    let n_w = n_wait(args.thorough());
+    let real = real_sys_all(&args, n_sys + n_w, &run);
     for idx in 0..n_sys {
         let case = sys_case(args.seed, idx, args.thorough());
         if std::env::var("YV_C19_DEBUG").is_ok() {
@@ -4420,6 +5184,19 @@ fn main() {
         let y = settle_real(&mut w, "script3-yash3", i, case, &v, &yash3s[i], &format!("{run}/y/s{i}"), Some(&yash3));
         emit_script3(&mut w, case, &v, &r, &y);
     }
+    // ---- stream 4: several children alive together ----
+    for k in 0..n_w {
+        let idx = wait_base(args.thorough()) + k;
+        let wops = gen_wait_case(args.seed, k, args.thorough());
+        if std::env::var("YV_C19_DEBUG").is_ok() {
+            eprintln!("wait case {k}: {}", wops.iter().map(|o| o.show()).collect::<Vec<_>>().join("; "));
+        }
+        let v = run_sys_virtual_w(&empty_sys_case(), Some(&wops), &format!("{run}/c{idx}/root"));
+        let Some(r) = real.get(&idx).cloned() else {
+            harness_error(&format!("no result of the real system for wait sequence {k}"));
+        };
+        emit_wait(&mut w, &wops, &v.res, &r.res);
+    }
     let _ = std::fs::remove_dir_all(&run);
     // (the per-seed directory too, if no other run is using it)
     let _ = std::fs::remove_dir(format!("{}/{}", scratch_base(), args.seed));
@@ -4429,6 +5206,8 @@ fn main() {
          least one failed; distinct = by call sequence.  stream 2: random scripts (2-10 statements \
          from 58 templates) run by the same generic shell main on the simulated and the real OS; \
          non-trivial = printed something.  stream 3: scripts of real built-ins only, additionally \
-         run by the yash3 binary built from the repository",
+         run by the yash3 binary built from the repository.  stream 4: 8-40 interleaved calls of a \
+         parent and its 2-4 live children (wait, SIGCHLD, death inside sigprocmask, own process \
+         groups); non-trivial = two children were reported by wait",
     );
 }
